@@ -80,6 +80,8 @@ def run(pid, tier, seed):
                                   % (res["flavour"], json.dumps(m["out"]), m["insertion_order"], json.dumps(m["comps"]) if m["comps"] is not None else m["error"],
                                      json.dumps(m["expected"]), ", ".join(reasons)),
                                   dict(m, source="tlc-generated-case", tlc_reasons=reasons))
+    cov = vlib.action_coverage("Scc", vlib.cfg_text({"Nodes": {1, 2, 3}, "Vals": {1}, "Directed": True, "MaxEdges": 2}, spec="SSpec",
+                                                     invariants=["SccCorrect", "SccIsTheSCCs"]), "%s/cov" % tag)
     # random larger graphs
     d = os.path.join(vlib.WORK, tag, "rec")
     os.makedirs(d, exist_ok=True)
@@ -106,7 +108,7 @@ def run(pid, tier, seed):
         "recorded_events_validated_by_tlc": events, "evaluations": execs + events, "distinct_nontrivial": nontriv,
         "rule": "one execution = scc() on one fresh container (own hash state) holding one graph inserted in one order; "
                 "non-trivial = graph has an edge; distinct by (graph, insertion order)",
-        "exhaustive": True, "model_drift": drift, "models": models, "flavours": FLAVOURS,
+        "exhaustive": True, "model_drift": drift, "models": models, "flavours": FLAVOURS, "action_coverage_small_model": cov,
         "graphs_where_real_containers_returned_components_in_different_orders": order_dep,
     })
     rep.assumptions += ["the model explores every container iteration order; the real hash order cannot be steered, it is varied by fresh ahash states and insertion orders",
